@@ -119,7 +119,7 @@ type caseParams struct {
 }
 
 func (*prop) Cases(seed int64, tier string) []core.Case {
-	ncases, n := 16, 400
+	ncases, n := 48, 600
 	if tier == "thorough" {
 		ncases, n = 128, 2500
 	}
